@@ -9,6 +9,7 @@ import (
 	"net/http"
 	"strings"
 
+	"github.com/labstack/echo/v4"
 	"github.com/labstack/echo/v4/middleware"
 )
 
@@ -19,6 +20,92 @@ type c03Case struct {
 	// unregistered-method request to the same path) is served; then the remaining routes are
 	// registered.  The answers must describe what is registered NOW.
 	Warm int `json:"warm,omitempty"`
+	// Host: the table is registered on the router of this host, through the host group's own helpers ("" = the
+	// default router).  Other: a second table on the OTHER router (the default router when Host is set, else the
+	// router of c03OtherHost).  The request's Host value decides — by exact equality, as the property family reads
+	// "exactly that Host value" — which of the two tables has to answer; the contract is checked against that one.
+	Host  string   `json:"host,omitempty"`
+	Other []rRoute `json:"other,omitempty"`
+	// Mw: what the application has installed around the router (bits): 1 a Use middleware that passes a context of
+	// its own (struct embedding echo.Context) down the chain; 2 a Use middleware that keeps values in the context
+	// store; 4 a custom HTTPErrorHandler; 8 a Use middleware that wraps the response writer; 16 a no-op Pre
+	// middleware; 32 a Use middleware that reports the error itself (c.Error) and returns nil; 64 a Pre middleware
+	// that keeps values in the context store before the router runs
+	Mw int `json:"mw,omitempty"`
+	// NoAutoHost: false = when Host, Other and Req.Host are all empty the case is a plain single-table case and a
+	// fifth of those (chosen by their content) are mounted on a host router as a whole (earlier rounds' behaviour)
+}
+
+const c03OtherHost = "other.example"
+
+// c03Ctx: an application's own context type (the documented way of extending echo.Context)
+type c03Ctx struct {
+	echo.Context
+	hits int
+}
+
+type c03Writer struct{ http.ResponseWriter }
+
+// c03Install: the middleware / handlers selected by the Mw bits
+func c03Install(e *echo.Echo, mw int) {
+	if mw&16 != 0 {
+		e.Pre(func(next echo.HandlerFunc) echo.HandlerFunc { return func(c echo.Context) error { return next(c) } })
+	}
+	if mw&64 != 0 {
+		// a Pre middleware that keeps values in the context store BEFORE the router runs
+		e.Pre(func(next echo.HandlerFunc) echo.HandlerFunc {
+			return func(c echo.Context) error {
+				c.Set("trace-id", "t-"+c.Request().Method)
+				c.Set("started", len(c.Request().URL.Path))
+				return next(c)
+			}
+		})
+	}
+	if mw&32 != 0 {
+		e.Use(func(next echo.HandlerFunc) echo.HandlerFunc {
+			return func(c echo.Context) error {
+				if err := next(c); err != nil {
+					c.Error(err)
+				}
+				return nil
+			}
+		})
+	}
+	if mw&8 != 0 {
+		e.Use(func(next echo.HandlerFunc) echo.HandlerFunc {
+			return func(c echo.Context) error {
+				c.Response().Writer = &c03Writer{c.Response().Writer}
+				return next(c)
+			}
+		})
+	}
+	if mw&2 != 0 {
+		e.Use(func(next echo.HandlerFunc) echo.HandlerFunc {
+			return func(c echo.Context) error {
+				c.Set("user", "u1")
+				c.Set("request-id", len(c.Request().URL.Path))
+				err := next(c)
+				_ = c.Get("user")
+				return err
+			}
+		})
+	}
+	if mw&1 != 0 {
+		e.Use(func(next echo.HandlerFunc) echo.HandlerFunc {
+			return func(c echo.Context) error { return next(&c03Ctx{Context: c}) }
+		})
+	}
+	if mw&4 != 0 {
+		e.HTTPErrorHandler = func(err error, c echo.Context) {
+			code := http.StatusInternalServerError
+			if he, ok := err.(*echo.HTTPError); ok {
+				code = he.Code
+			}
+			if !c.Response().Committed {
+				c.JSON(code, map[string]any{"error": http.StatusText(code)})
+			}
+		}
+	}
 }
 
 func c03Wire(routes []rRoute, o rObs) string {
@@ -33,41 +120,91 @@ func c03Wire(routes []rRoute, o rObs) string {
 
 func c03Run(ci any) Result {
 	c := ci.(*c03Case)
-	var cur rObs
-	host := rHostForC03(c.Routes)
-	c.Req.Host = host
-	e := rEchoWarmHost(host, c.Routes, c.Warm, []rReq{c.Req, {Method: http.MethodOptions, Path: c.Req.Path, Host: host}, {Method: "X-UNREGISTERED", Path: c.Req.Path, Host: host}}, &cur)
+	var cur, oth rObs
+	host := c.Host
+	if c.Host == "" && len(c.Other) == 0 && c.Req.Host == "" {
+		host = rHostForC03(c.Routes)
+		c.Req.Host = host
+	}
+	// which table has to answer: exactly the registered Host value selects the host router, everything else the default one
+	main, other := c.Routes, c.Other
+	mainHost, otherHost := host, ""
+	if host == "" {
+		otherHost = c03OtherHost
+	}
+	// the request belongs to the second table (which may be empty: nothing registered on the default router)
+	swapped := mainHost != "" && c.Req.Host != mainHost || mainHost == "" && len(other) > 0 && c.Req.Host == otherHost
+	e := echo.New()
+	e.Logger.SetOutput(nopWriter{})
+	regFor := func(h string) rRegistrar {
+		if h == "" {
+			return e
+		}
+		return e.Host(h)
+	}
+	warm := c.Warm
+	if warm <= 0 || warm > len(main) {
+		warm = len(main)
+	}
+	mainReg := regFor(mainHost)
+	rAddRoutes(mainReg, e, main[:warm], 0, &cur)
+	if len(other) > 0 {
+		rAddRoutes(regFor(otherHost), e, other, 0, &oth)
+	}
+	rhost := c.Req.Host
+	if warm < len(main) {
+		for _, q := range []rReq{c.Req, {Method: http.MethodOptions, Path: c.Req.Path, Host: rhost}, {Method: "X-UNREGISTERED", Path: c.Req.Path, Host: rhost}} {
+			rServe(e, &cur, q)
+		}
+		rAddRoutes(mainReg, e, main, warm, &cur)
+	}
+	cur, oth = cur.keep(), oth.keep()
+	c03Install(e, c.Mw)
 	if c.Req.Override {
 		e.Pre(middleware.MethodOverride())
 	}
+	// sel: the table that has to answer, rec: where its handlers record, wrong: where the other table's handlers record
+	sel, rec, wrong := main, &cur, &oth
+	if swapped {
+		sel, rec, wrong = other, &oth, &cur
+	}
+	serve := func(q rReq) {
+		*wrong = wrong.keep()
+		rServe(e, rec, q)
+	}
+	strayed := func() bool { return wrong.Kind == 'D' || wrong.Kind == 'P' }
 	prior := false
 	if (len(c.Req.Path)+len(c.Routes))%2 == 0 {
 		// the pooled context has served a request that reached a handler just before: what that request left
 		// behind (handler, route path, values) must not answer this one
-		k := len(c.Req.Path) % len(c.Routes)
-		if c.Routes[k].Method != routeNotFound {
-			toks, names, _ := rNorm(c.Routes[k].Path)
+		k := 0
+		if len(sel) > 0 {
+			k = len(c.Req.Path) % len(sel)
+		}
+		if len(sel) > 0 && sel[k].Method != routeNotFound {
+			toks, names, _ := rNorm(sel[k].Path)
 			vals := make([]string, len(names))
 			for i := range vals {
 				vals[i] = "v" + wInt(i)
 			}
 			if pp, ok := rInst(toks, vals); ok {
-				rServe(e, &cur, rReq{Method: c.Routes[k].Method, Path: pp, Host: host})
-				prior = cur.Kind == 'D'
+				serve(rReq{Method: sel[k].Method, Path: pp, Host: rhost})
+				prior = rec.Kind == 'D'
 			}
 		}
 	}
-	rServe(e, &cur, c.Req)
-	first := cur
+	serve(c.Req)
+	first := *rec
+	wrongTable := strayed()
 	res := Result{
-		Ops: wJoin(rTableWire(c.Routes), wStr(c.Req.Method), wStr(c.Req.Path)),
-		Obs: c03Wire(c.Routes, first),
+		Ops: wJoin(rTableWire(sel), wStr(c.Req.Method), wStr(c.Req.Path)),
+		Obs: c03Wire(sel, first),
 	}
 	tags := []string{"outcome-" + string(first.Kind)}
 	if prior {
 		tags = append(tags, "after-a-served-request(recycled-context)")
 	}
-	if c.Warm > 0 && c.Warm < len(c.Routes) {
+	if c.Warm > 0 && c.Warm < len(sel) {
 		tags = append(tags, "requests-before-later-registrations")
 	}
 	fail := func(s string) {
@@ -75,9 +212,25 @@ func c03Run(ci any) Result {
 			res.Oracle = s
 		}
 	}
-	clash := rColonClash(c.Routes) || rHasTextAfterStar(c.Routes)
+	if wrongTable {
+		res.Obs = "X"
+		fail(fmt.Sprintf("a request with Host %q was answered by a handler of the table registered for %s", c.Req.Host, map[bool]string{true: "the host " + fmt.Sprintf("%q", mainHost), false: "another host (or the default router)"}[swapped]))
+	}
+	if c.Mw != 0 {
+		tags = append(tags, fmt.Sprintf("app-middleware-bits-%d", c.Mw))
+	}
+	if mainHost != "" {
+		tags = append(tags, "table-on-a-host-router")
+	}
+	if len(c.Other) > 0 {
+		tags = append(tags, "second-table-on-the-other-router")
+		if swapped {
+			tags = append(tags, "request-for-the-second-table")
+		}
+	}
+	clash := rColonClash(sel) || rHasTextAfterStar(sel)
 	anyReal, anyNF := false, false
-	for _, r := range c.Routes {
+	for _, r := range sel {
 		toks, _, _ := rNorm(r.Path)
 		if rMatchConservative(toks, c.Req.Path) {
 			if r.Method == routeNotFound {
@@ -90,6 +243,11 @@ func c03Run(ci any) Result {
 	switch first.Kind {
 	case 'P':
 		fail("routing panicked: " + first.Panic)
+	case '?':
+		// no registered handler ran, and the answer is none of the three the contract knows
+		if !wrongTable {
+			fail(fmt.Sprintf("%s %q is answered with status %d and Allow %q by the router itself: neither 404, nor 405 with Allow, nor (OPTIONS) 204 with Allow", c.Req.Method, c.Req.Path, first.Status, first.Allow))
+		}
 	case 'N':
 		if first.Status != http.StatusNotFound {
 			fail(fmt.Sprintf("not-found outcome with status %d", first.Status))
@@ -97,12 +255,12 @@ func c03Run(ci any) Result {
 		if (anyReal || anyNF) && !clash {
 			fail(fmt.Sprintf("some registered pattern matches %q but the answer is 404", c.Req.Path))
 		}
-		if c03CatchAllCovers(c.Routes, c.Req.Path) && !clash {
+		if c03CatchAllCovers(sel, c.Req.Path) && !clash {
 			fail(fmt.Sprintf("a RouteNotFound catch-all covers %q but the router answered 404 itself", c.Req.Path))
 		}
 	case 'M':
 		tags = append(tags, "allow-checked")
-		if c03CatchAllCovers(c.Routes, c.Req.Path) && !clash {
+		if c03CatchAllCovers(sel, c.Req.Path) && !clash {
 			// "... unless a custom not-found route covers the path, in which case that handler runs": for a
 			// RouteNotFound route that is literal text, or literal text followed by `*`, this is unambiguous
 			// (Lean: Router.Tree.find_covered).  A RouteNotFound route that sits on a parameter position while
@@ -131,40 +289,42 @@ func c03Run(ci any) Result {
 			if m == http.MethodOptions {
 				continue
 			}
-			rServe(e, &cur, rReq{Method: m, Path: c.Req.Path, Host: host})
-			if cur.Kind != 'D' || c.Routes[cur.Hid].Method != m {
-				fail(fmt.Sprintf("Allow advertises %s but %s %q gives %s", m, m, c.Req.Path, cur.wire()))
+			serve(rReq{Method: m, Path: c.Req.Path, Host: rhost})
+			if strayed() {
+				fail(fmt.Sprintf("Allow advertises %s but %s %q (Host %q) is answered by a handler of the table of another host", m, m, c.Req.Path, c.Req.Host))
+			} else if rec.Kind != 'D' || sel[rec.Hid].Method != m {
+				fail(fmt.Sprintf("Allow advertises %s but %s %q gives %s", m, m, c.Req.Path, rec.wire()))
 			}
 		}
 		// an OPTIONS request gets the same Allow as any other unmatched method
-		other := "X-UNREGISTERED"
+		otherM := "X-UNREGISTERED"
 		if c.Req.Method != http.MethodOptions {
-			other = http.MethodOptions
+			otherM = http.MethodOptions
 		}
-		rServe(e, &cur, rReq{Method: other, Path: c.Req.Path, Host: host})
-		if cur.Kind == 'M' && strings.Join(cur.Allow, ",") != strings.Join(first.Allow, ",") {
-			fail(fmt.Sprintf("Allow differs between %s (%q) and %s (%q)", c.Req.Method, first.Allow, other, cur.Allow))
+		serve(rReq{Method: otherM, Path: c.Req.Path, Host: rhost})
+		if rec.Kind == 'M' && strings.Join(rec.Allow, ",") != strings.Join(first.Allow, ",") {
+			fail(fmt.Sprintf("Allow differs between %s (%q) and %s (%q)", c.Req.Method, first.Allow, otherM, rec.Allow))
 		}
-		res.Nontrivial = len(first.Allow) > 1 && len(c.Routes) > 1
+		res.Nontrivial = len(first.Allow) > 1 && len(sel) > 1
 	case 'D':
-		if c.Routes[first.Hid].Method == routeNotFound {
+		if sel[first.Hid].Method == routeNotFound {
 			tags = append(tags, "custom-404-route")
 		}
 		// "a request whose path is matched only by routes for other methods is answered 405": the handler of a
 		// route registered for another method must not run
-		if m := c.Routes[first.Hid].Method; m != routeNotFound && m != c.Req.Method {
-			fail(fmt.Sprintf("handler of %s %q ran for a %s request", m, c.Routes[first.Hid].Path, c.Req.Method))
+		if m := sel[first.Hid].Method; m != routeNotFound && m != c.Req.Method {
+			fail(fmt.Sprintf("handler of %s %q ran for a %s request", m, sel[first.Hid].Path, c.Req.Method))
 		}
 		// "a request whose path no registered pattern matches is answered 404": a handler must not run for it
 		anyLiberal := false
-		for _, r := range c.Routes {
+		for _, r := range sel {
 			toks, _, _ := rNorm(r.Path)
 			if rMatchLiberal(toks, c.Req.Path) {
 				anyLiberal = true
 			}
 		}
 		if !anyLiberal && !clash {
-			fail(fmt.Sprintf("no registered pattern matches %q but the handler of route %d (%s %q) ran", c.Req.Path, first.Hid, c.Routes[first.Hid].Method, c.Routes[first.Hid].Path))
+			fail(fmt.Sprintf("no registered pattern matches %q but the handler of route %d (%s %q) ran", c.Req.Path, first.Hid, sel[first.Hid].Method, sel[first.Hid].Path))
 		}
 	}
 	res.Tags = tags
@@ -225,6 +385,36 @@ func c03CatchAllCovers(routes []rRoute, path string) bool {
 	return false
 }
 
+// host names as applications register them (upper case, port, trailing dot, IDN, IPv6 literal) ...
+var c03Hosts = []string{"Shop.Example.com:8443", "api.example.com", "API.example.com", "EXAMPLE.ORG", "example.org.", "xn--bcher-kva.example", "B\xc3\xbccher.example", "[::1]:8080", "localhost:80", "a.com"}
+
+// ... and what a client may send instead of the registered name: by the exact-equality reading every one of them
+// (except the name itself) belongs to the default router
+func c03VaryHost(r *rand.Rand, h string) string {
+	switch r.Intn(9) {
+	case 0:
+		return strings.ToLower(h)
+	case 1:
+		return strings.ToUpper(h)
+	case 2:
+		return h + ":80"
+	case 3:
+		if i := strings.LastIndexByte(h, ':'); i > 0 && !strings.HasSuffix(h, "]") {
+			return h[:i]
+		}
+		return h + ":8443"
+	case 4:
+		return h + "."
+	case 5:
+		return strings.TrimSuffix(h, ".")
+	case 6:
+		return "www." + h
+	case 7:
+		return ""
+	}
+	return c03OtherHost
+}
+
 func c03Gen(r *rand.Rand, tier string) []any {
 	tables, per := 700, 10
 	if tier == "thorough" {
@@ -233,15 +423,79 @@ func c03Gen(r *rand.Rand, tier string) []any {
 	var out []any
 	for i := 0; i < tables; i++ {
 		routes := rGenTable(r, rGenOpts{escaped: r.Intn(6) == 0, maxRoute: 8})
+		// a third of the tables share the Echo instance with a second table on the other router; half of those are
+		// themselves mounted on a host router
+		var other []rRoute
+		host := ""
+		if r.Intn(3) == 0 {
+			other = rGenTable(r, rGenOpts{maxRoute: 5})
+			if r.Intn(2) == 0 {
+				// the second table shares patterns with the first, under other methods
+				for k := range other {
+					if r.Intn(2) == 0 {
+						other[k].Path = routes[r.Intn(len(routes))].Path
+					}
+				}
+				// (no route twice: C03's tables are without re-registrations)
+				seen := map[string]bool{}
+				uniq := other[:0]
+				for _, rt := range other {
+					toks, _, _ := rNorm(rt.Path)
+					if key := rt.Method + " " + rTokKey(toks); !seen[key] {
+						seen[key] = true
+						uniq = append(uniq, rt)
+					}
+				}
+				other = uniq
+			}
+			if r.Intn(2) == 0 {
+				host = c03Hosts[r.Intn(len(c03Hosts))]
+			}
+		} else if r.Intn(8) == 0 {
+			host = c03Hosts[r.Intn(len(c03Hosts))] // nothing at all on the default router
+		}
 		for k := 0; k < per; k++ {
 			m := rGenMethod(r, routes)
 			if r.Intn(3) == 0 {
 				m = []string{"OPTIONS", "PATCH", "HEAD", "X-UNREGISTERED", "TRACE"}[r.Intn(5)]
 			}
-			cs := &c03Case{Routes: routes, Req: rReq{Method: m, Path: rGenPath(r, routes)}}
+			cs := &c03Case{Routes: routes, Req: rReq{Method: m, Path: rGenPath(r, routes)}, Host: host, Other: other}
 			cs.Req.Override = m != "" && r.Intn(8) == 0 // arrives as POST + X-HTTP-Method-Override under e.Pre(MethodOverride())
 			if len(routes) > 1 && r.Intn(3) == 0 {
 				cs.Warm = 1 + r.Intn(len(routes)-1)
+			}
+			if host != "" || len(other) > 0 {
+				// whose request it is: the table's own host, the other router's, or a look-alike of the registered name
+				own := host
+				if host == "" {
+					own = c03OtherHost
+				}
+				switch r.Intn(5) {
+				case 0, 1:
+					cs.Req.Host = host
+				case 2:
+					cs.Req.Host = c03VaryHost(r, own)
+				case 3:
+					if host == "" {
+						cs.Req.Host = c03OtherHost
+					}
+				default:
+					cs.Req.Host = []string{"", "unrelated.example", own}[r.Intn(3)]
+				}
+				if len(other) > 0 && r.Intn(3) == 0 {
+					// a path / method of the second table
+					cs.Req.Path = rGenPath(r, other)
+					cs.Req.Method = rGenMethod(r, other)
+				}
+				if cs.Req.Host == "" && host == "" && len(other) == 0 {
+					cs.Req.Host = "plain.example" // (all three empty would mean "plain single-table case")
+				}
+			}
+			if r.Intn(3) == 0 {
+				cs.Mw = 1 << r.Intn(7)
+				if r.Intn(3) == 0 {
+					cs.Mw |= 1 << r.Intn(7)
+				}
 			}
 			out = append(out, cs)
 		}
@@ -265,6 +519,33 @@ func c03Shrink(ci any) []any {
 		d.Warm = 0
 		out = append(out, &d)
 	}
+	for b := 1; b <= 64; b <<= 1 {
+		if c.Mw&b != 0 {
+			d := *c
+			d.Mw &^= b
+			out = append(out, &d)
+		}
+	}
+	if len(c.Other) > 0 {
+		d := *c
+		d.Other = nil
+		if d.Host == "" && d.Req.Host == "" {
+			d.Req.Host = "plain.example"
+		}
+		out = append(out, &d)
+	}
+	if c.Host != "" && c.Req.Host == c.Host {
+		d := *c
+		d.Host, d.Req.Host = "", "plain.example"
+		out = append(out, &d)
+	}
+	for i := range c.Other {
+		if len(c.Other) > 1 {
+			d := *c
+			d.Other = append(append([]rRoute(nil), c.Other[:i]...), c.Other[i+1:]...)
+			out = append(out, &d)
+		}
+	}
 	for _, p := range rShrinkString(c.Req.Path) {
 		d := *c
 		d.Req.Path = p
@@ -275,7 +556,7 @@ func c03Shrink(ci any) []any {
 
 func c03Known(ci any, res Result, modelObs string) string {
 	c := ci.(*c03Case)
-	if rColonClash(c.Routes) {
+	if rColonClash(c.Routes) || rColonClash(c.Other) {
 		return "F2"
 	}
 	return ""
@@ -284,7 +565,7 @@ func c03Known(ci any, res Result, modelObs string) string {
 func init() {
 	register(&Prop{
 		ID:             "C03",
-		Rule:           "random route tables (as C01; custom method names and RouteNotFound routes included) x paths derived from the patterns x methods incl. OPTIONS / unregistered / custom; for every 405/204 answer every advertised method is re-sent to the same path (retry oracle) and a second unmatched method checks that Allow is the same; non-trivial = a 405/204 answer advertising at least one method besides OPTIONS in a table of >= 2 routes; distinct = distinct model op lines",
+		Rule:           "random route tables (as C01; custom method names and RouteNotFound routes included) x paths derived from the patterns x methods incl. OPTIONS / unregistered / custom; for every 405/204 answer every advertised method is re-sent to the same path (retry oracle) and a second unmatched method checks that Allow is the same; a third of the tables share the Echo instance with a second table on the other router (default router / host router with names in upper case, with port, trailing dot, IDN, IPv6) and the request's Host value (the registered name, look-alikes of it, others) decides by exact equality which table the contract is checked against; a third of the cases run behind application middleware (own context type, context store, wrapped response writer, error reported by the middleware, custom HTTPErrorHandler, Pre); non-trivial = a 405/204 answer advertising at least one method besides OPTIONS in a table of >= 2 routes; distinct = distinct model op lines",
 		New:            func() any { return &c03Case{} },
 		Gen:            c03Gen,
 		Run:            c03Run,
